@@ -368,6 +368,10 @@ class Agent(dbus.service.Object):
         '''
         pri_blk = ctr.bundle.primary
 
+        if 'receive' in ctr.actions:
+            # a bundle in transit keeps the primary block of its source
+            return
+
         if pri_blk.source is None:
             pri_blk.source = self._config.node_id
 
